@@ -2,9 +2,11 @@ import LokiModel.Props.C30
 /-!
 # C30 — witnesses of the open findings of `resolve_vector_notation` (non-gating)
 
-The model (tied to the real transformer by the correspondence check) turns the two programs below into loops whose final
-array contents differ from those of the array assignment.  Each witness is also a corpus request replayed on the real
-code by the direct oracle on every run.
+The real transformer and the model turn `wOverlap` / `wStride` into `wOverlapT` / `wStrideT` (that equality is checked on
+every run: both programs are corpus requests of the correspondence check, `corpus/C30/witness.sexp`; it is not restated
+here because kernel reduction of `String` append — the generated name `i_a_0` — is not available to `decide`).
+The theorems show that the loop forms compute other array contents than the array assignments.  The direct oracle
+replays both on the real code on every run.
 -/
 namespace LokiModel.C30.Findings
 open LokiModel.Fir LokiModel.C30
@@ -26,11 +28,17 @@ def wOverlap : Program :=
   unitOf [{ name := "a", ty := .int, dims := [(li 0, li 3)], intent := .inout }] ["a"]
     [.assign (.sec "a" [.rng (some (li 1)) (some (li 3)) none]) (.sec "a" [.rng (some (li 0)) (some (li 2)) none])]
 
+def loopOf (v a b : String) (lo hi : Ex) (step : Option Ex) (sub : Ex) : List Stmt :=
+  [.doLoop v lo hi step [.assign (.idx a [.var v]) (.idx b [sub])]]
+
+def wOverlapT : Program :=
+  unitOf [{ name := "a", ty := .int, dims := [(li 0, li 3)], intent := .inout }, { name := "i_a_0", ty := .int, dims := [] }]
+    ["a"] (loopOf "i_a_0" "a" "a" (li 1) (li 3) none (.bin .add (.bin .sub (.var "i_a_0") (li 1)) (li 0)))
+
 theorem resolve_overlap_witness :
-    ∃ q, T_model .resolve wOverlap = some q ∧
-      finalOf "a" (runMain wOverlap 20 [("a", ints [1, 2, 3, 4])]) = some (ints [1, 1, 2, 3]) ∧
-      finalOf "a" (runMain q 20 [("a", ints [1, 2, 3, 4])]) = some (ints [1, 1, 1, 1]) :=
-  ⟨_, rfl, by decide, by decide⟩
+    finalOf "a" (runMain wOverlap 20 [("a", ints [1, 2, 3, 4])]) = some (ints [1, 1, 2, 3]) ∧
+    finalOf "a" (runMain wOverlapT 20 [("a", ints [1, 2, 3, 4])]) = some (ints [1, 1, 1, 1]) :=
+  ⟨by decide, by decide⟩
 
 /-- class `KnownStride`: `b(3:1:-1) = a(1:3)` -/
 def wStride : Program :=
@@ -38,10 +46,14 @@ def wStride : Program :=
           { name := "b", ty := .int, dims := [(li 1, li 3)], intent := .inout }] ["a", "b"]
     [.assign (.sec "b" [.rng (some (li 3)) (some (li 1)) (some (.neg (li 1)))]) (.sec "a" [.rng (some (li 1)) (some (li 3)) none])]
 
+def wStrideT : Program :=
+  unitOf [{ name := "a", ty := .int, dims := [(li 1, li 3)], intent := .inout },
+          { name := "b", ty := .int, dims := [(li 1, li 3)], intent := .inout }, { name := "i_b_0", ty := .int, dims := [] }]
+    ["a", "b"] (loopOf "i_b_0" "b" "a" (li 3) (li 1) (some (.neg (li 1))) (.bin .add (.bin .sub (.var "i_b_0") (li 3)) (li 1)))
+
 theorem resolve_stride_witness :
-    ∃ q, T_model .resolve wStride = some q ∧
-      finalOf "b" (runMain wStride 20 [("a", ints [1, 2, 3]), ("b", ints [0, 0, 0])]) = some (ints [3, 2, 1]) ∧
-      finalOf "b" (runMain q 20 [("a", ints [1, 2, 3]), ("b", ints [0, 0, 0])]) = some (ints [1, 2, 3]) :=
-  ⟨_, rfl, by decide, by decide⟩
+    finalOf "b" (runMain wStride 20 [("a", ints [1, 2, 3]), ("b", ints [0, 0, 0])]) = some (ints [3, 2, 1]) ∧
+    finalOf "b" (runMain wStrideT 20 [("a", ints [1, 2, 3]), ("b", ints [0, 0, 0])]) = none :=   -- a(0): subscript out of bounds
+  ⟨by decide, by decide⟩
 
 end LokiModel.C30.Findings
